@@ -77,7 +77,9 @@ func Render(s *S) string {
 		fmt.Fprintf(&sb, " config %s;", s.Cfg)
 	}
 	if s.Default != "" {
-		fmt.Fprintf(&sb, " default %q;", s.Default)
+		for _, d := range strings.Split(s.Default, ",") { // a leaf-list may have several
+			fmt.Fprintf(&sb, " default %q;", d)
+		}
 	}
 	if s.Min != "" {
 		fmt.Fprintf(&sb, " min-elements %s;", s.Min)
